@@ -66,7 +66,7 @@ class Loader(yaml.SafeLoader):
             # acceptable if the document type allows for it.
             mark = self.get_mark()
             node = yaml.ScalarNode('tag:yaml.org,2002:null', '', mark, mark)
-        self.__reject_recursion(node, ())
+        self.__reject_recursion(node, (), set())
         node = self.__unshared(node)
         node = self.__process_node(node, type(self).document_type)
         return node
@@ -83,12 +83,13 @@ class Loader(yaml.SafeLoader):
         """
         node = cast(yaml.Node, super().get_node())
         if node is not None:
-            self.__reject_recursion(node, ())
+            self.__reject_recursion(node, (), set())
             node = self.__unshared(node)
             node = self.__process_node(node, type(self).document_type)
         return node
 
-    def __reject_recursion(self, node: yaml.Node, parents: tuple) -> None:
+    def __reject_recursion(
+            self, node: yaml.Node, parents: tuple, checked: set) -> None:
         """Raises if a node contains itself via an alias.
 
         Recognition and processing recurse over the node graph, so a
@@ -97,7 +98,12 @@ class Loader(yaml.SafeLoader):
         Args:
             node: The node to check.
             parents: Ids of the nodes we are currently inside of.
+            checked: Ids of nodes that were found not to contain
+                themselves, which need not be walked again if they
+                are referred to once more.
         """
+        if id(node) in checked:
+            return
         if id(node) in parents:
             raise RecognitionError((
                 '{}\nThis is an alias for something it is itself a part of.'
@@ -106,11 +112,12 @@ class Loader(yaml.SafeLoader):
         parents = parents + (id(node),)
         if isinstance(node, yaml.SequenceNode):
             for item in node.value:
-                self.__reject_recursion(item, parents)
+                self.__reject_recursion(item, parents, checked)
         elif isinstance(node, yaml.MappingNode):
             for key_node, value_node in node.value:
-                self.__reject_recursion(key_node, parents)
-                self.__reject_recursion(value_node, parents)
+                self.__reject_recursion(key_node, parents, checked)
+                self.__reject_recursion(value_node, parents, checked)
+        checked.add(id(node))
 
     def __unshared(self, node: yaml.Node) -> yaml.Node:
         """Returns a copy of the node tree without shared nodes.
